@@ -168,6 +168,8 @@ class Sym:
 
     def assume(self, c):
         self.assumptions.append(c)
+        if self.values is None and sym.have_ctx():
+            sym.ctx().assume(c)      # effective at once: later steps of the builder may branch on it
 
     def concretize(self, model, max_len=4096):
         """counter-model -> {name: value}"""
@@ -208,6 +210,10 @@ def _skolem_view_eq(a, b, label):
     for (u, nt, ba) in getattr(c, 'uval_terms', []):
         c.assume(z3.Implies(z3.And(k.term >= 0, k.term < nt),
                             ints.ubit(u, nt, k.term) == sym._b(ba.bit(k))))
+    for (vt, nt, pt) in getattr(c, 'ubit_terms', []):
+        inr = z3.And(k.term >= 0, k.term < nt)
+        c.assume(z3.Implies(z3.And(inr, vt == 0), z3.Not(ints.ubit(vt, nt, k.term))))
+        c.assume(z3.Implies(z3.And(inr, vt == pt - 1), ints.ubit(vt, nt, k.term)))
     n_eq = sym.eq(a.n, b.n)
     inrange = sym.land(k >= 0, k < a.n)
     return sym.land(n_eq, sym.implies(inrange, sym.iff(a.bit(k), b.bit(k))))
@@ -228,6 +234,10 @@ def same(x, y, label, goals, seen=None):
         # abstraction functions: a BitStore is its logical content, a bitstring is
         # (class, logical content, pos); representation flags are compared only where a
         # contract observes them explicitly
+        if x.cls.name == 'Dtype':
+            for k in ('_name', '_length', '_scale'):
+                same(x.attrs.get(k), y.attrs.get(k), f'{label}.{k}', goals, seen)
+            return
         if x.cls.name == 'BitStore':
             from .spec import store_bits
             if '_bitarray' not in x.attrs or '_bitarray' not in y.attrs:
@@ -278,7 +288,7 @@ def same(x, y, label, goals, seen=None):
             return
         goals.add(label, _skolem_view_eq(x.view, y.view, label))
         return
-    if isinstance(x, (SStr, str)) and isinstance(y, (SStr, str)):
+    if isinstance(x, (SStr, str)) and isinstance(y, (SStr, str)) and (isinstance(x, SStr) or isinstance(y, SStr)):
         sx = x if isinstance(x, SStr) else _str_to_sstr(y.kind, x)
         sy = y if isinstance(y, SStr) else _str_to_sstr(x.kind, y)
         if sx is None or sy is None:
